@@ -40,6 +40,21 @@ def cases(draw):
         f = draw(st.sampled_from(nums))
         c["inputs"].append(dict(c["inputs"][0], **{f: M.enc(float("nan"))}))
         c["inputs"].append(dict(c["inputs"][-2 if len(c["inputs"]) > 1 else 0], **{f: M.enc(float("inf"))}))
+    if c["inputs"] and draw(st.integers(0, 2)) == 0:
+        # values that cannot be turned into text / bytes: an int beyond CPython's int->str limit (as an unrelated extra field,
+        # or in a field that is only compared), a str with a lone surrogate (in any field, so also in a splitter, where the
+        # key cannot be hashed): whatever the evaluator does - group or error class - the generated module must do as well
+        base = c["inputs"][0]
+        c["inputs"].append(dict(base, zz_unrelated=M.enc(draw(st.sampled_from([10 ** 5000, -(10 ** 4400)])))))
+        if nums:
+            c["inputs"].append(dict(base, **{draw(st.sampled_from(nums)): M.enc(10 ** 5000)}))
+        if base:
+            f = draw(st.sampled_from(sorted(base)))
+            c["inputs"].append(dict(base, **{f: M.enc("user-\udcff-17")}))
+        for f in c["prog"]["splitters"] or []:
+            if f in base:
+                c["inputs"].append(dict(base, **{f: M.enc(draw(st.sampled_from(["\ud800", "a\udfffb", 10 ** 5000])))}))
+                break
     return c
 
 
@@ -100,9 +115,9 @@ def judge(case):
                 # independent of anything both sides might share (a process-wide cache): the reference interpreter's route
                 msg = common.check_routing(prog, env, b)
                 if msg:
-                    viol.append("%s layout: generated function: %s | inputs=%r | %s" % (layout, msg, env, text))
+                    viol.append("%s layout: generated function: %s | inputs=%r | %s" % (layout, msg, common.short_env(env), text))
             if not same:
-                viol.append("%s layout: generated function gave %r, evaluator gave %r | inputs=%r | %s" % (layout, b, a, env, text))
+                viol.append("%s layout: generated function gave %r, evaluator gave %r | inputs=%r | %s" % (layout, b, a, common.short_env(env), text))
     nt = prog["body"]["k"] == "if" and (prog["salt"] is not None or bool(prog["splitters"]))
     return {"viol": viol[:5], "nontrivial": nt, "tags": tags, "key": text, "sample": {"text": text[:300]}}
 
